@@ -172,8 +172,11 @@ prop("C07", lambda tier: [e1("c07", "harness/c07_joincounter.c"),
      "E3: N in 0..9, 2^k-1, 2^k, 2^k+1 for k=4..30, INT_MAX-1, INT_MAX x 0..2 waiters (large N: state word preset to N-2 decrements, flagged accelerated)")
 prop("C08", lambda tier: [e1("c08", "harness/c08_uncond.c")],
      "single-slot SPSC hand-off of 1..3 items following the documented announce/CAS protocol, either side created first, x all schedules with <= K deviations")
-prop("C09", lambda tier: [e1("c09", "harness/c09_felock.c")],
-     "single-slot mailbox with 1-2 producers, 1-2 consumers, 2-3 items, optional plain lock/unlock observer, x all schedules with <= K deviations")
+prop("C09", lambda tier: [e1("c09", "harness/c09_felock.c"),
+                          binc("c09first", "engine/build_unit.sh c09first harness/c09_first.c", "build/c09first/c09first --stats {stats} --tier quick", "build/c09first/c09first --stats {stats} --tier thorough",
+                               "E3 seqmc (bounded exhaustive first-use operation sequences, one process each)")],
+     "single-slot mailbox with 1-2 producers, 1-2 consumers, 2-3 items, optional plain lock/unlock observer, x all schedules with <= K deviations; "
+     "c09first: every legal non-blocking felock operation sequence up to depth 5 (8 thorough) as the first library calls of a process / after fini, against the (locked, status) model, followed by a real exchange")
 prop("C14", lambda tier: [e1("c14", "harness/c14_once.c"), e1wrap("c14p", "harness/c14_pthread.c", "ld"),
                           binc("c14first", "engine/build_unit.sh c14first harness/c14_first.c", "build/c14first/c14first --stats {stats} --tier quick", "build/c14first/c14first --stats {stats} --tier thorough",
                                "E3 seqmc (bounded exhaustive first-use cases, one process each)")] + ([e1wrap("c14pdl", "harness/c14_pthread.c", "dl")] if tier == "thorough" else []),
